@@ -15,8 +15,12 @@ SPEC = {
                      "reference peer / bus monitor of harness/tp.cpp written from J1939-21 and the statement; documented library "
                      "timeouts (50 ms after RTS, 100 ms after CTS) are taken as the reference for 'abandoned too early'",
                      "PGN tables regenerated from src/NMEA2000.cpp (known-message filter)"],
-    'assumptions': ["node open and address claim settled; heartbeat switched off (C12); no other pending information timers running",
+    'assumptions': ["node open and address claim settled; heartbeat switched off (C12)",
                     "transported PGNs are not the ones the library consumes itself (59392, 59904, 60928, 65240, 126208)",
+                    "of the received system messages only the single-frame ISO request (59904) for 60928 / 126996 / 126998 (and the NAK "
+                    "for other PGNs) is modelled, without an application ISORqstHandler; a request for 126464 is not; the content of "
+                    "the product / configuration information answers is an input of the model (captured from the node, C08's subject); "
+                    "PendingIsoAddressClaim is never armed",
                     "no application-declared PGN lists; message forwarding off",
                     "CAN frames have at most 8 data bytes; a shorter TP frame is processed on the driver's 8-byte buffer as the library does",
                     "pacing is measured where frames are produced; under driver back-pressure frames leave later through the send queue (C11)",
